@@ -285,3 +285,43 @@ pub fn compare(ont: &Ontology, exp: &Expected, focus: &[Focus]) -> Vec<String> {
     }
     d
 }
+
+/// The full projection of a real ontology through the public read API, in the same shape as an
+/// `Expected` (used when the property relates two real ontologies, e.g. a serialisation round trip).
+pub fn observe(ont: &Ontology) -> Expected {
+    let mut e = Expected::default();
+    for t in ont.iter() {
+        let id = t.id().as_u32();
+        e.terms.insert(
+            id,
+            ExpTerm {
+                name: t.name().to_string(),
+                obsolete: t.is_obsolete(),
+                repl: t.replacement_id().map(|x| x.as_u32()),
+                parents: ids(t.parent_ids()),
+                children: ids(t.children_ids()),
+                allp: ids(t.all_parent_ids()),
+                ann: [
+                    t.gene_ids().iter().map(|x| x.as_u32()).collect(),
+                    t.omim_disease_ids().iter().map(|x| x.as_u32()).collect(),
+                    t.orpha_disease_ids().iter().map(|x| x.as_u32()).collect(),
+                ],
+            },
+        );
+    }
+    for g in ont.genes() {
+        e.recs[0].insert(g.id().as_u32(), ExpRec { name: g.name().to_string(), hpos: ids(g.hpo_terms()) });
+    }
+    for g in ont.omim_diseases() {
+        e.recs[1].insert(g.id().as_u32(), ExpRec { name: g.name().to_string(), hpos: ids(g.hpo_terms()) });
+    }
+    for g in ont.orpha_diseases() {
+        e.recs[2].insert(g.id().as_u32(), ExpRec { name: g.name().to_string(), hpos: ids(g.hpo_terms()) });
+    }
+    let v: Vec<u32> = ont.hpo_version().split('-').map(|x| x.parse().unwrap_or(0)).collect();
+    if v.len() == 3 {
+        e.version = (v[0] as u16, v[1] as u8, v[2] as u8);
+    }
+    e.defaults = e.has_roots();
+    e
+}
